@@ -13,6 +13,8 @@ CLAIMED["C07"] = ("proof", "Theorems for every NumOps instance (Properties/C07.v
 CLAIMED["C05"] = ("proof", "Theorems for every NumOps instance (Properties/C05.v): for every reachable history, every parameter set and every update time, a successful Update leaves nobody mid-trip whose marker-defined open trip started more than TripLength whole days ago or holds FlightsInTrip flights (loop invariant relating the tracked tripState to the markers + window lemma for startOfTrip); an ended trip is a no-op for Update and stays ended over any number of later updates. The model is compared with the real TripHistory after every step (full state hash incl. markers and oldestChange, MidTrip, tripStartEndLength, startOfTrip), and Go monitors state both halves of C05 on the real code.", "5 C05", "Coq proof (loop invariant over the update fold, induction over operations) + vm_compute correspondence")
 CLAIMED["C01"] = ("proof", "Theorems for every NumOps instance, i.e. bit-exact for float64 (Properties/C01.v): over every sequence of engine operations the balance of every stored traveller is the sequential sum of the ghost unbounded ledger and the stored window is its newest 100 entries; an accepted check-in appends exactly -d_i and (taxi != 0) -taxi per flight in order when debiting and nothing otherwise; the daily update appends at most the share; an erroring submission stores nothing; under commutative/associative addition the sum is order-independent. The engine model (real check-in loop, transact, correction options) is compared with the real Engine on LevelDB after every operation under the C01 projection; a Go monitor keeps its own unbounded ledger (bitwise).", "5 C01", "Coq proof (ledger invariant by induction over engine operations) + vm_compute correspondence")
 CLAIMED["C02"] = ("proof", "Theorems for every NumOps instance (Properties/C02.v): a one-flight check-in returns EGROUNDED iff not mid-trip, balance not >= 0 and no kept promise whose refreshed clearance is reached (also at the engine API on the stored or fresh record); mid-trip / never flown / zero balance / due kept promise are never refused; errors store nothing; an in-order multi-flight submission is refused only at its first flight. The unconditional multi-flight statement is refuted by a machine-checked witness (known finding). Correspondence: the result code of every check-in in generated engine histories; Go monitor recomputes 'grounded' from the record read just before each call.", "5 C02", "Coq proof (decision lemma, induction over the submitted flights) + vm_compute correspondence")
+CLAIMED["C03"] = ("proof", "Theorems for every NumOps instance (Properties/C03.v): in every reachable engine state with a permitted thread setting, a daily update stores for every traveller exactly its own updated record, the share is (DailyTotal + cycled correction iff the option is on)/max(MinGrounded, previously credited) or 0, each traveller who is not mid-trip once the trip rules are applied and has a negative balance gets exactly one share and nobody else's balance changes, a trip closed in the same update by keeping a promise is not credited, and the reported and carried grounded count is the number credited. Correspondence under the C03 projection (share bits, grounded count, all balances after every update) on populations of 2-40 travellers over several days; Go monitor recomputes formula and credit set.", "5 C03", "Coq proof (per-traveller decision lemma + partition/permutation argument over the worker slices, induction over operations) + vm_compute correspondence")
+CLAIMED["C04"] = ("proof", "Theorems (Properties/C04.v): for all 256 thread bytes, the accepted ones cut worker ranges that cover each of the 16 shards exactly once with no more workers than channel slots (finite sweep by vm_compute lifted with forallb_forall); the workers' slices are a permutation of the snapshot for any key distribution; stored records, carried state, share and integer totals are functions of state and time alone; any interleaving of the write lists and any arrival order of statistics give the same table and integer totals; the float distance total is order-independent only under ring laws (known finding on the real code). Correspondence: the same database image updated from identical copies at Threads=0,1,2,4,8,16 with crowded and empty shards, compared with each other and with the model. PARTIAL: freedom from Go data races cannot be exhibited by a Gallina model; the proved footprint argument (workers share only immutable inputs, write distinct keys) is supported by 'go test -race' over the same driver in the thorough tier.", "5 C04", "Coq proof (finite sweep + permutation/partition lemmas) + vm_compute correspondence across six thread settings")
 PENDING = {}
 props = [json.loads(l) for l in open(os.path.join(V, "properties.jsonl"))]
 checks, na = [], []
